@@ -5,7 +5,7 @@
 (* equality is order-independent and prints each pair of construction orders.     *)
 EXTENDS Values, TLC, Json
 
-Ips == {<<4, 10, 0, 0, 1>>, <<4, 10, 0, 0, 2>>, <<6, 1>>}          \* v4 10.0.0.1, 10.0.0.2, v6 ::1
+Ips == {<<4, 10, 0, 0, 1>>, <<4, 10, 0, 0, 2>>, <<6, 0, 0, 0, 0, 0, 0, 0, 0, 0, 0, 0, 0, 0, 0, 0, 1>>, <<6, 0, 0, 0, 0, 0, 0, 0, 0, 0, 0, 255, 255, 10, 0, 0, 1>>}          \* v4 10.0.0.1, 10.0.0.2, v6 ::1
 Ports == {80, 443, 8080}
 Perms(S) == {f \in [1 .. Cardinality(S) -> S] : \A i, j \in 1 .. Cardinality(S) : i # j => f[i] # f[j]}
 
